@@ -448,7 +448,7 @@ def by_name(rng, fq, p, doc):
     if p == 'target':
         return rng.choice(TARGETS.get(fq, ['new']))
     if p in ('fancy', 'n_dec', 'n', 'max_iter', 'number', 'ordinal'):
-        return {'fancy': rng.randint(0, 1), 'n_dec': rng.randint(0, 6), 'n': rng.randint(0, 6), 'max_iter': 1000,
+        return {'fancy': rng.random() < 0.5, 'n_dec': rng.randint(0, 6), 'n': rng.randint(0, 6), 'max_iter': 1000,
                 'number': rng.randint(1600, 2200), 'ordinal': rng.randint(0, 130)}[p]
     if p in ('tol',):
         return rng.choice([1e-10, 1e-6, 0.5])
